@@ -12,8 +12,8 @@ reference window sieve, a disagreement IS a failing input of C18):
   pscore-sieve         pssieve h : multi-segment runs, sieve sizes (16 = min, 17, 31, 32, 33, 48, 64, 100, 128, 256 KiB), forced L1 sizes,
                        all three classes of sieving primes (small / medium / big), p^2 exactly on a segment boundary
   pscore-seg-explicit  psseg h   : real Erat at 2^32, 2^48, 2^62, 2^63, 2^64-2^33, up to 2^64-1 with explicit sieving numbers
-  pscore-count-gen     pscount / psgen / psgenprev mirror (small exhaustive scopes around 0..60 and the smallPrimes cache end 719/721)
-  pscore-spec          psgen / pscount against the proved reference (oracle)
+  pscore-count-gen     pscorecount / pscoregen / psgenprev mirror (small exhaustive scopes around 0..60 and the smallPrimes cache end 719/721)
+  pscore-spec          pscoregen / pscorecount against the proved reference (oracle)
 """
 import math
 
@@ -34,7 +34,7 @@ TRUSTED = [
     "harness/ops_pscore.cpp reads private/protected members of Erat, SievingPrimes, PrimeGenerator, Wheel, CpuInfo via "
     "`#define private public` (layout unchanged) and forces cpuInfo.cacheSizes_[1] (L1 size) to the value of the op",
     "the op `pssieve` drives the real Erat + SievingPrimes with a COPY of the loop of CountPrintPrimes::sieve (the translator "
-    "checks that loop's text); `pscount` / `psgen` run CountPrintPrimes::sieve / PrimeGenerator themselves",
+    "checks that loop's text); `pscorecount` / `pscoregen` run CountPrintPrimes::sieve / PrimeGenerator themselves",
     "abstracted in the model: MemoryPool / Bucket linked lists (arrays), EratMedium's sort by wheel index and the order inside "
     "EratBig's bucket lists (bit clearing commutes), SIMD variants of presieve1/2 and fillNextPrimes (the dispatch selected on "
     "this CPU is what the streams execute), isqrt = floor sqrt (C12), ctz/popcnt instructions",
@@ -53,10 +53,10 @@ U64 = (1 << 64) - 1
 
 
 def regime(op, res):
-    """which classes of sieving primes a pssieve/pscount/psgen op reaches (python mirror of Erat::initAlgorithms, only used
+    """which classes of sieving primes a pssieve/pscorecount/pscoregen op reaches (python mirror of Erat::initAlgorithms, only used
     to COUNT the input distribution)"""
     t = op.split()
-    if t[0] not in ("pssieve", "psgen", "pscount", "psgenprev"):
+    if t[0] not in ("pssieve", "pscoregen", "pscorecount", "psgenprev"):
         return t[0]
     start, stop, kb, l1raw = int(t[1]), int(t[2]), int(t[3]), int(t[4])
     if stop < 7 or start > stop:
@@ -201,41 +201,41 @@ def streams(ctx):
     ops = []
     for a in range(0, 40 if q else 61):
         for b in range(a, 41 if q else 61):
-            ops.append("psgen %d %d 16 32768 x" % (a, b))
+            ops.append("pscoregen %d %d 16 32768 x" % (a, b))
             if (a + b) % 4 == 0:
                 ops.append("psgenprev %d %d 16 32768 x" % (a, b))
-                ops.append("pscount %d %d 16 32768" % (a, b))
+                ops.append("pscorecount %d %d 16 32768" % (a, b))
     for a in range(700, 731, 1 if not q else 3):
         for b in (a, 718, 719, 720, 721, 722, 726, 727, 733, 760):
             if a <= b:
-                ops.append("psgen %d %d 16 32768 x" % (a, b))
+                ops.append("pscoregen %d %d 16 32768 x" % (a, b))
                 ops.append("psgenprev %d %d 16 32768 x" % (a, b))
     for _ in range(20 if q else 150):
         a = int(10 ** rng.uniform(0, 12))
         b = a + int(10 ** rng.uniform(0, 6.3))
         kb, l1 = rng.choice(KBS), rng.choice(L1S)
-        ops.append("psgen %d %d %d %d h" % (a, b, kb, l1))
+        ops.append("pscoregen %d %d %d %d h" % (a, b, kb, l1))
         ops.append("psgenprev %d %d %d %d h" % (a, b, kb, l1))
-        ops.append("pscount %d %d %d %d" % (a, b, kb, l1))
-    ops.append("pscount 0 %d 64 32768" % (10 ** 7 if q else 10 ** 9))
-    ops.append("pscount 10 5 16 0")
+        ops.append("pscorecount %d %d %d %d" % (a, b, kb, l1))
+    ops.append("pscorecount 0 %d 64 32768" % (10 ** 7 if q else 10 ** 9))
+    ops.append("pscorecount 10 5 16 0")
     out.append(Stream("pscore-count-gen", ops, oracle=False, classify=regime, timeout=1800))
 
     # ---- 7. against the PROVED reference window sieve (oracle)
     ops = []
     for a in range(0, 12):
         for b in range(a, 35):
-            ops.append("psgen %d %d 16 32768 x" % (a, b))
+            ops.append("pscoregen %d %d 16 32768 x" % (a, b))
     for off in [0, 700, 10 ** 6, 1 << 32, 10 ** 12, 1 << 40] + ([] if q else [1 << 44, 1 << 48]):
         for _ in range(3 if q else 12):
             a = max(0, off + rng.randint(-1000, 10 ** 5))
             b = a + rng.choice((0, 1, 100, rng.randint(0, 10 ** 6), rng.randint(0, 3 * 10 ** 6)))
             kb, l1 = rng.choice(KBS), rng.choice(L1S)
-            ops.append("psgen %d %d %d %d h" % (a, b, kb, l1))
-            ops.append("pscount %d %d %d %d" % (a, b, kb, l1))
+            ops.append("pscoregen %d %d %d %d h" % (a, b, kb, l1))
+            ops.append("pscorecount %d %d %d %d" % (a, b, kb, l1))
 
     def ref_ops(ops_, impl):
-        return [o.replace("psgen ", "psgenref ", 1).replace("pscount ", "pscountref ", 1) for o in ops_]
+        return [o.replace("pscoregen ", "psgenref ", 1).replace("pscorecount ", "pscountref ", 1) for o in ops_]
     # first in the list: when something breaks, its disagreements (failing inputs of the property) are reported first
     out.insert(0, Stream("pscore-spec", ops, oracle=True, model_ops=ref_ops, classify=regime, timeout=1800))
     return out
